@@ -203,7 +203,9 @@ def handleCdt (inp out : List String) : String :=
     -- `DelaunayTriangulationConfig::default()` snaps vertices closer than `snap_radius = 1e-4` (an absolute length)
     -- onto each other: polygons whose distinct vertices come that close are outside what the default entry points
     -- promise (documented snapping), e.g. every polygon at a 2^-27 scale
-    let snap2 : Rat := (1 / 2500 : Rat) * (1 / 2500 : Rat)
+    -- (under a scaled-down case the harness scales the snap radius with the coordinates)
+    let sc : Rat := match P.scale inp with | some (k, _) => if k < 1 then k else 1 | none => 1
+    let snap2 : Rat := (sc / 2500) * (sc / 2500)
     if pts.any (fun a => pts.any (fun b => a != b && dist2 a b ≤ snap2)) then skip "vertices-within-snap-radius" else
     match hullTarget pts with
     | none => "ERR hull-oracle-failed"
